@@ -13,6 +13,7 @@ import (
 	"encoding/json"
 	"fmt"
 	"time"
+	"unicode/utf8"
 
 	"github.com/cosmos/cosmos-sdk/crypto/keys/ed25519"
 	"github.com/cosmos/cosmos-sdk/crypto/keys/secp256k1"
@@ -152,13 +153,29 @@ func genC11TxCase(r *Rng) c11TxInput {
 			}
 			if shadow[v].has && r.Chance(4, 5) {
 				op := c11Op{Kind: "vote", Val: v, Feeder: f, Salt: shadow[v].salt, Rates: shadow[v].rates}
-				if r.Chance(1, 8) {
+				exact := op
+				again := false
+				switch r.Pick(6, 1, 2) {
+				case 1:
 					op.Salt = "x"
+				case 2: // a non-identical byte variant of the committed salt (valid UTF-8, 1..4 bytes: passes ValidateBasic)
+					if t := c11SaltVariant(r, op.Salt); t != "" && utf8.ValidString(t) {
+						op.Salt = t
+						again = true
+					}
 				}
 				blk = append(blk, c11TxOp{Signer: signer, Op: op})
+				if again {
+					blk = append(blk, c11TxOp{Signer: signer, Op: exact})
+				}
 			}
 			if r.Chance(4, 5) {
 				op := c11Op{Kind: "prevote", Val: v, Feeder: f, HashFor: v, HashMode: "honest", Salt: c11Salts[r.Intn(3)], Rates: c11Rates[r.Intn(4)]}
+				if r.Chance(2, 5) {
+					if t := c11SaltBases[r.Intn(len(c11SaltBases))]; utf8.ValidString(t) {
+						op.Salt = t
+					}
+				}
 				blk = append(blk, c11TxOp{Signer: signer, Op: op})
 				if signer == f {
 					shadow[v] = sh{op.Salt, op.Rates, true}
@@ -204,6 +221,16 @@ func TestC11Tx(t *testing.T) {
 			{Signer: 0, Op: c11Op{Kind: "vote", Val: 0, Feeder: 0, Salt: "1", Rates: R}},
 			{Signer: 0, Op: c11Op{Kind: "vote", Val: 0, Feeder: 0, Salt: "1", Rates: R}},
 			{Signer: 6, Op: c11Op{Kind: "delegate", Val: 0, Delegate: 6}}},
+	}})
+	// opener: byte-exact reveals through DeliverTx (ValidateBasic: salt of 1..4 bytes)
+	runC11Tx(t, em, c11TxInput{Mode: "tx", VP0: 1, NVals: 2, Blocks: [][]c11TxOp{
+		{{Signer: 0, Op: c11Op{Kind: "prevote", Val: 0, Feeder: 0, HashFor: 0, HashMode: "honest", Salt: "ab", Rates: R}},
+			{Signer: 1, Op: c11Op{Kind: "prevote", Val: 1, Feeder: 1, HashFor: 1, HashMode: "honest", Salt: "ab ", Rates: R}}},
+		{{Signer: 0, Op: c11Op{Kind: "vote", Val: 0, Feeder: 0, Salt: "ab ", Rates: R}},
+			{Signer: 0, Op: c11Op{Kind: "vote", Val: 0, Feeder: 0, Salt: "\tab", Rates: R}},
+			{Signer: 0, Op: c11Op{Kind: "vote", Val: 0, Feeder: 0, Salt: "ab", Rates: R}},
+			{Signer: 1, Op: c11Op{Kind: "vote", Val: 1, Feeder: 1, Salt: "ab", Rates: R}},
+			{Signer: 1, Op: c11Op{Kind: "vote", Val: 1, Feeder: 1, Salt: "ab ", Rates: R}}},
 	}})
 	rng := NewRng(cfg.Seed ^ 0xC11)
 	n := cfg.N
